@@ -64,6 +64,16 @@ def strata(tier):
             if j % 2:
                 yield {"rules": [rule_term(rng, doc, cast), rule_term(rng, doc, rng.choice([None, [["str", "int"]]])),
                                  rule_term(rng, doc, [["str", "bool"]])], "doc": doc}
+    # rules given a doc block through the constructor, in every shape a caller may write (the JSON form does not carry it and
+    # equality does not look at it)
+    for j, dshape in enumerate(({"description": "text\n"}, {"description": ["a\n", " b "], "examples": []}, {"examples": ["only example"]}, {},
+                                {"description": [], "examples": []}, {"description": ["x"], "examples": ["`code`"]}, "a string", ["l1", "l2"])):
+        rng = G.rng_for("C13-docs", j)
+        doc = c15.CAST_DOC
+        r1 = dict(rule_term(rng, doc, [["str", "int"]] if j % 2 else None), doc=dshape)
+        r2 = dict(rule_term(rng, doc, None), doc=dshape if j % 3 else None)
+        yield {"rules": [r1], "doc": doc}
+        yield {"rules": [r1, r2], "doc": doc}
 
 
 def budget(tier):
